@@ -69,26 +69,22 @@ static double ll_dist(double lat1, double lon1, double lat2, double lon2) {
 // ------------------------------------------------------------------ library calls with outcome capture
 // outcome: 0 returned, 1 GeographicErr, 2 foreign exception, 3 fatal signal
 struct Out { int outcome = 0; std::string what; };
-// mc::crashed without the signal-mask save/restore (two system calls per library call, which dominate a 10^9-string
-// sweep).  Sound because mc::crash_install() installs its handlers with SA_NODEFER and an empty sa_mask: the signal mask
-// inside the handler equals the mask at the sigsetjmp, so nothing needs restoring.
-template <class F> static inline int crashed_fast(F f) {
-  mc::crash_install();
-  if (sigsetjmp(mc::crash_jmp(), 0)) return mc::crash_sig();
-  mc::crash_armed() = 1;
-  try { f(); } catch (...) { mc::crash_armed() = 0; throw; }
-  mc::crash_armed() = 0;
-  return 0;
-}
+// Signal containment as in mc::crashed but without the signal-mask save/restore (two system calls per library call, which
+// dominate a 10^9-string sweep).  Sound because mc::crash_install() installs its handlers with SA_NODEFER and an empty
+// sa_mask: the signal mask inside the handler equals the mask at the sigsetjmp, so nothing needs restoring.
 template <class F> static Out guard(F f, bool contain_signals) {
   Out o;
-  try {
-    if (contain_signals) { int sg = crashed_fast(f); if (sg) { o.outcome = 3; o.what = "signal " + std::to_string(sg); } }
-    else f();
+  if (contain_signals) {
+    // signal containment inline (not through crashed_fast) so that an exception is unwound once, not caught and rethrown
+    mc::crash_install();
+    if (sigsetjmp(mc::crash_jmp(), 0)) { o.outcome = 3; o.what = "signal " + std::to_string((int)mc::crash_sig()); return o; }
+    mc::crash_armed() = 1;
   }
+  try { f(); }
   catch (const GeographicErr& e) { o.outcome = 1; o.what = e.what(); }
   catch (const std::exception& e) { o.outcome = 2; o.what = std::string("foreign exception: ") + e.what(); }
   catch (...) { o.outcome = 2; o.what = "foreign exception"; }
+  mc::crash_armed() = 0;
   return o;
 }
 struct Fwd { Out o; int zone; bool northp; double x, y, g, k; };
